@@ -113,8 +113,8 @@ def check(ctx):
         ctx.expect(ok, "C07.7", "replacer/recursion", rf["sp"],
                    "every angle-bracketed type-path argument of every segment is searched recursively with the same mapping", detail)
     expect_fn(ctx, "C07.7", "replacer/ident-shape", "substitutes::get_ident_from_type_path",
-              "if(Option::is_some(P0.qself)){v1::None}else{if(Option::is_some(P0.path.leading_colon)){v1::None}else{if((Punctuated::len(P0.path.segments)>='2')){v1::None}else{"
-              "then(PathArguments::is_empty(Punctuated::last(P0.path.segments)?.arguments),Punctuated::last(P0.path.segments)?.ident)}}}",
+              "then((!let v1::Some($)=P0.qself&&(!let v1::Some($)=P0.path.leading_colon&&(Not((Punctuated::len(P0.path.segments)>='2'))&&"
+              "PathArguments::is_empty(Punctuated::last(P0.path.segments)?.arguments)))),Punctuated::last(P0.path.segments)?.ident)",
               "a parameter use is a bare single-segment path without qself, leading `::` or own arguments", "scale_typegen")
     # key ignores generics
     expect_fn(ctx, "C07.8", "key/idents-only", "substitutes::path_segments", "Iterator::collect(Iterator::map(Punctuated::iter(P0.segments),|1|{ToString::to_string(C1_0.ident)}))",
